@@ -46,7 +46,7 @@ theorem reported_once (id : Nat) (ops : List AOp) : Life.C04.ok id (trace id ops
 
 /-- The op sequence that exhibited the former finding: a supervised child killed while idle. -/
 def witness : List AOp :=
-  [.spawn (some 0) none true, .resume ⟨[], .ok⟩, .pollSpawn true, .poll, .resume ⟨[], .ok⟩, .poll, .kill, .poll]
+  [.spawn (some 0) none true false true, .resume ⟨[], .ok⟩, .pollSpawn true, .poll, .resume ⟨[], .ok⟩, .poll, .kill, .poll]
 
 /-- The invariant behind it (see `Life.C04.Core`): while the actor lives no terminal event was
 emitted and the guard is armed; `ActorStarted` was emitted only past `post_start`; a pending stop
@@ -73,7 +73,7 @@ theorem src_status : Extracted.statusDiscriminants = Life.statusTable := by deci
 /-! ### Non-vacuity and rejection examples -/
 
 /-- Handler panic: exactly one `ActorFailed` with the panic text, after `ActorStarted`. -/
-example : traceNoSnap 1 [.spawn (some 0) none true, .resume ⟨[], .ok⟩, .pollSpawn true, .poll, .resume ⟨[], .ok⟩, .poll,
+example : traceNoSnap 1 [.spawn (some 0) none true false true, .resume ⟨[], .ok⟩, .pollSpawn true, .poll, .resume ⟨[], .ok⟩, .poll,
       .send 5, .poll, .resume ⟨[], .panic 9⟩, .poll] =
     [.enter .preStart .none, .tick .preStart, .exit .preStart .ok, .spawnRet .ok, .supIs (some 0),
      .enter .postStart .none, .tick .postStart, .exit .postStart .ok, .emit 0 (.started 1),
@@ -81,10 +81,19 @@ example : traceNoSnap 1 [.spawn (some 0) none true, .resume ⟨[], .ok⟩, .poll
      .emit 0 (.failed 1 true 9), .join .ok, .supIs none] := by decide
 
 /-- Abort of a suspended handler: "actor_task_cancelled", no state. -/
-example : traceNoSnap 1 [.spawn (some 0) none true, .resume ⟨[], .ok⟩, .pollSpawn true, .poll, .abort] =
+example : traceNoSnap 1 [.spawn (some 0) none true false true, .resume ⟨[], .ok⟩, .pollSpawn true, .poll, .abort] =
     [.enter .preStart .none, .tick .preStart, .exit .preStart .ok, .spawnRet .ok, .supIs (some 0),
      .enter .postStart .none, .aborted, .cancelled .postStart,
      .emit 0 (.terminated 1 false .cancelled), .join .cancelled, .supIs none] := by decide
+
+/-- A thread-local child: linked before `pre_start`, graceful stop reports NO state (it is not
+`Send`), exactly once. -/
+example : traceNoSnap 1 [.spawn (some 0) none true true true, .resume ⟨[], .ok⟩, .pollSpawn true, .poll,
+      .resume ⟨[], .ok⟩, .poll, .stop (some "bye"), .poll, .resume ⟨[], .ok⟩, .poll] =
+    [.isLocal, .enter .preStart .none, .supIs (some 0), .tick .preStart, .exit .preStart .ok, .spawnRet .ok,
+     .enter .postStart .none, .tick .postStart, .exit .postStart .ok, .emit 0 (.started 1),
+     .stopRet false (.text "bye") true, .enter .postStop .none, .tick .postStop, .exit .postStop .ok,
+     .emit 0 (.terminated 1 false (.text "bye")), .join .ok, .supIs none] := by decide
 
 /-- The witness of the former finding, spelled out: no state any more. -/
 example : traceNoSnap 1 witness =
